@@ -117,7 +117,17 @@ class RateLimitedEntity(Entity):
         self.received_times.append(now)
 
         if self._policy.try_acquire(now):
-            return self._forward(event, now)
+            if self._queue.is_empty():
+                return self._forward(event, now)
+            # Requests are already waiting: the granted capacity goes to the
+            # oldest of them and the new arrival joins the back of the queue,
+            # so forwarding stays in arrival order.
+            oldest = self._queue.pop()
+            self._queue.push(event)
+            self._queued += 1
+            result = self._forward(oldest, now)
+            result.extend(self._ensure_poll_scheduled(now))
+            return result
 
         # Queue the event
         if self._queue.push(event):
